@@ -12,7 +12,7 @@ import ast
 from ..cfg import Oracle, build_cfg
 from ..index import AnalysisError, UNKNOWN, norm, unparse
 from ..report import Ctx, Obligation
-from ..terms import NONE, Evaluator, const, evaluator, implies, mentions, show, subterms, tv
+from ..terms import NONE, Evaluator, cmp_const, const, evaluator, implies, mentions, show, subterms, tv
 from ..util import callee_attr, xtext
 
 GB = "gateway_base"
@@ -36,7 +36,7 @@ def _is_receive(t) -> bool:
 
 def _says_ge(cond, a, b) -> bool:
     """the path condition contains `not (a < b)` / `a >= b`"""
-    return (("cmp", "lt", a, b), False) in cond or (("cmp", "ge", a, b), True) in cond or (("cmp", "gt", b, a), False) in cond or (("cmp", "le", b, a), True) in cond
+    return (("cmp", "lt", a, b), False) in cond or (("cmp", "le", b, a), True) in cond
 
 
 def check_stream_reassembly(ctx: Ctx, prefix: str) -> None:
@@ -188,8 +188,9 @@ def check(ctx: Ctx) -> None:
         def has_nl(cond) -> bool | None:
             out = set()
             for (t, v) in cond:
-                if t[0] == "cmp" and t[2] == FIND and t[3][0] == "const":
-                    r = {("eq", -1): False, ("lt", 0): False, ("le", -1): False, ("ge", 0): True, ("gt", -1): True}.get((t[1], t[3][1]))
+                cc = cmp_const(t)
+                if cc is not None and cc[1] == FIND:
+                    r = {("eq", -1): False, ("lt", 0): False, ("le", -1): False, ("ge", 0): True, ("gt", -1): True}.get((cc[0], cc[2]))
                     if r is not None:
                         out.add(r == v)
             return out.pop() if len(out) == 1 else None
